@@ -311,6 +311,64 @@ class CFG(object):
                 dq.append(v)
         return None
 
+    def find_path_flags(self, sources, targets, flags, mode=N, cut_nodes=(), keep_edge=None):
+        """Like find_path, but path-sensitive in the boolean locals named in `flags`: an assignment
+        `flag = True/False` is remembered along the path and a later test of `flag` follows only
+        the consistent edge.  Any other assignment to a flag forgets its value."""
+        flags = set(flags)
+        cut = set(n.id if isinstance(n, Node) else n for n in cut_nodes)
+        tg = set(n.id if isinstance(n, Node) else n for n in targets)
+        start = []
+        for s0 in sources:
+            s0 = s0.id if isinstance(s0, Node) else s0
+            if s0 not in cut:
+                start.append((s0, ()))
+        parent = {}
+        dq = deque()
+        for st in start:
+            if st not in parent:
+                parent[st] = None
+                dq.append(st)
+        while dq:
+            cur = dq.popleft()
+            u, known = cur
+            if u in tg:
+                path = []
+                c = cur
+                while c is not None:
+                    path.append(self.nodes[c[0]])
+                    c = parent[c]
+                return list(reversed(path))
+            nd = self.nodes[u]
+            kd = dict(known)
+            if nd.kind == "stmt" and isinstance(nd.ast, ast.Assign):
+                for t in nd.ast.targets:
+                    if isinstance(t, ast.Name) and t.id in flags:
+                        v = nd.ast.value
+                        if isinstance(v, ast.Constant) and isinstance(v.value, bool):
+                            kd[t.id] = v.value
+                        else:
+                            kd.pop(t.id, None)
+            only = None
+            if nd.kind == "test" and isinstance(nd.ast, ast.Name) and nd.ast.id in kd:
+                only = "T" if kd[nd.ast.id] else "F"
+            nk = tuple(sorted(kd.items()))
+            for e in self.succ[u]:
+                if not self.edge_ok(e, mode):
+                    continue
+                if keep_edge is not None and not keep_edge(e):
+                    continue
+                if only is not None and e.label in ("T", "F") and e.label != only:
+                    continue
+                if e.dst in cut:
+                    continue
+                nxt = (e.dst, nk)
+                if nxt in parent:
+                    continue
+                parent[nxt] = cur
+                dq.append(nxt)
+        return None
+
     def reachable(self, sources, mode=N, cut_nodes=(), keep_edge=None):
         cut = set(n.id if isinstance(n, Node) else n for n in cut_nodes)
         seen = set()
